@@ -80,7 +80,7 @@ type Obs struct {
 }
 
 // ---------------------------------------------------------------------------------------------
-// embedded engine (the wazero copy `wa run` uses, default configuration)
+// embedded engine (the wazero copy `wa run` uses)
 
 type wzEngine struct {
 	ctx   context.Context
@@ -91,10 +91,13 @@ type wzEngine struct {
 
 func newWz() (*wzEngine, error) {
 	e := &wzEngine{ctx: context.Background()}
-	if os.Getenv("C06_WZ") == "interp" {
-		e.rt = wazero.NewRuntimeWithConfig(e.ctx, wazero.NewRuntimeConfigInterpreter())
+	// The graph family runs on the interpreter backend of the embedded engine: compiling every
+	// tiny module to native code costs 30-90 ms, the interpreter 0.3 ms. The corpus (corpus.go)
+	// uses the default configuration, which is what `wa run` uses. C06_WZ=compiler switches back.
+	if os.Getenv("C06_WZ") == "compiler" {
+		e.rt = wazero.NewRuntime(e.ctx)
 	} else {
-		e.rt = wazero.NewRuntime(e.ctx) // what `wa run` uses: the compiler where supported
+		e.rt = wazero.NewRuntimeWithConfig(e.ctx, wazero.NewRuntimeConfigInterpreter())
 	}
 	_, err := e.rt.NewHostModuleBuilder("env").NewFunctionBuilder().
 		WithGoFunction(api.GoFunc(func(ctx context.Context, stack []uint64) {
